@@ -6,6 +6,7 @@ Lane B: fixture corpus x stored-byte corruption (token-level) x swarm configurat
 catch_unwind containment boundaries.
 """
 import copy
+import json
 import os
 import re
 
@@ -267,6 +268,10 @@ def generate(rng, tier):
     if rng.chance(15):
         depth = rng.choice([4, 8, 16, 24, 32])
         text = rustlex.amplify(rng, text, depth)
+    if rng.chance(3):
+        # truncation taken to its end: nothing, or next to nothing, is left of the file
+        text = rng.choice(["", "", "\n", "   ", "\n\n\n", "//", "/*", "\ufeff", "\r\n", "#!"])
+        desc = desc + ["truncate-to-nothing"]
     # whole-file opt-outs and verbosity: paths that bypass the formatting phase altogether
     optout = rng.choice([None] * 8 + ["innerskip", "generated", "ignored"])
     if optout == "innerskip":
@@ -288,7 +293,11 @@ def generate(rng, tier):
                     + rng.choice([[], [], [], ["--color", "always"], ["--color", "auto"], ["--color", "never"], ["--config", "color=Always"]]),
             "term": rng.choice(["dumb", "dumb", "vt100", "xterm", "xterm-256color", None, "no-such-terminal", "ansi"]),
             # the documented logging switch: whatever it prints, the process still ends with 0 or 1
-            "log": rng.choice([None] * 14 + ["debug", "trace", "rustfmt_nightly=debug", "rustfmt_nightly::missed_spans=debug", "info"])}
+            "log": rng.choice([None] * 14 + ["debug", "trace", "rustfmt_nightly=debug", "rustfmt_nightly::missed_spans=debug", "info"]),
+            # the line-range restriction editors and format-diff use: none, an empty list, a range in the input, a
+            # range in another file
+            "filelines": rng.choice([None] * 12 + ["empty", "range", "range", "other"]),
+            "flrange": [rng.range(1, 30), rng.range(1, 60)]}
 
 
 LANE_C_SRC = '''/// Example:
@@ -400,6 +409,15 @@ def execute(case):
             inv["env"] = {"TERM": case["term"]}
             if case.get("log"):
                 inv["env"]["RUSTFMT_LOG"] = case["log"]
+        fl = case.get("filelines")
+        if fl:
+            lo, hi = sorted(case["flrange"])
+            target = {"root": "input.rs", "module": "input.rs", "stdin": "stdin"}[case["delivery"]]
+            if fl == "other":
+                files["w/other.rs"] = "fn  other( ){ }\n"
+                target = "other.rs"
+            spans = [] if fl == "empty" else [{"file": target, "range": [lo, hi]}]
+            argv += ["--unstable-features", "--file-lines", json.dumps(spans)]
         if case["delivery"] == "root":
             files["w/input.rs"] = spec
             inv["argv"] = argv + ["input.rs" if case["hashseed"] % 3 else "$ROOT/w/input.rs"]
@@ -425,6 +443,14 @@ def execute(case):
         if res.timed_out:
             v.inconclusive += 1
             v.probe("timeout:" + case["source"])
+            # kept aside for triage by hand (slow or hanging?); never read back by a check
+            try:
+                d = os.path.join(core.CACHE, "timeouts")
+                os.makedirs(d, exist_ok=True)
+                with open(os.path.join(d, "C16-%s.json" % case.get("seed", "x")), "w") as f:
+                    json.dump(case, f)
+            except OSError:
+                pass
             return v
         ab = core.abnormal(res)
         cp = core.contained_panic(res)
